@@ -3012,3 +3012,34 @@ TT("C01", "twin-dead-incoming-branch-removed", [
     (NODE, "        if direction == \"incoming\":\n            event_node_map = self.event_node_map_incoming\n        else:\n            event_node_map = self.event_node_map_outgoing",
      "        event_node_map = self.event_node_map_outgoing"),
 ], "the pipeline only ever loads outgoing logic")
+
+# ---- triaged behaviour-preserving edits in node.py (were demanded by R1.16 / R1.28)
+T("C01", "twin-leaf-not-in-operator-outgoing", NODE,
+  "                getattr(self, direction).append(\n                    event_node_map[logic_tree.label]\n                )\n",
+  "",
+  "nobody reads .outgoing of an operator node (poison run: 0 reads in 800 families)")
+T("C01", "twin-stub-flag-not-set", NODE,
+  "                    event_type=logic_tree.label,\n                    is_stub=True,\n",
+  "                    event_type=logic_tree.label,\n",
+  "the flag of a stub is never read: stubs are not nodes of the graph")
+T("C01", "twin-derived-kill-flag-not-stored", NODE,
+  "                self.is_loop_kill_path[index] = node.all_paths_are_loop_kill()\n",
+  "",
+  "the derived flag is always False written onto False (induction over the gate tree)")
+# ---- and the demonstrated ones (mutant_demos/<id>)
+M("C01", "set-outgoing-logic-not-stored", NODE,
+  "        self.outgoing_logic = outgoing_logic\n",
+  "        pass\n",
+  "R1.17", "the block rewrites a logic node whose alternatives stay the old ones")
+M("C01", "traverse-logic-not-recursive", NODE,
+  "            else:\n                nodes.extend(node.traverse_logic(direction))\n",
+  "",
+  "R1.22", "leaves of nested operators are missing: an AND of XORs counts as a kill path")
+M("C01", "kill-paths-not-searched-in-nested-gates", NODE,
+  "                node.update_loop_kill_paths_from_given_leaf_nodes(leaf_nodes)\n",
+  "",
+  "R1.28", "a kill leaf inside a nested gate is not marked")
+M("C01", "lonely-merge-single-path", NODE,
+  "        if len(self.is_loop_kill_path) <= 1:",
+  "        if len(self.is_loop_kill_path) < 1:",
+  "R1.28", "a gate with one path gets a lonely merge")
